@@ -1290,6 +1290,10 @@ async fn tamper_case_async(case: u64, rng: &mut Rng, st: &mut Stats, chunks: &[u
     // case -> (chunk size, size class of key 0, write method of key 0); key 1 takes the
     // "opposite" size class and the next method, so every combination is fully tampered on both
     let n_sizes = 6;
+    // the thorough tier repeats the whole state space with fresh contents (nonces, tokens and
+    // therefore the CBOR bytes differ from repetition to repetition)
+    let repetition = case as usize / (chunks.len() * n_sizes * METHODS.len());
+    st.max("max_state_space_repetitions", repetition as u64 + 1);
     // largest states first (better load balance of the parallel section)
     let ci = chunks.len() - 1 - ((case as usize) / (n_sizes * METHODS.len())) % chunks.len();
     let si = n_sizes - 1 - (case as usize / METHODS.len()) % n_sizes;
@@ -1372,7 +1376,7 @@ async fn tamper_case_async(case: u64, rng: &mut Rng, st: &mut Stats, chunks: &[u
     }
     st.add(if strict { "tampers_judged_strict_mode" } else { "tampers_judged_compat_mode" }, tampers.len() as u64);
     st.max("max_tamper_sites_per_state", tampers.len() as u64);
-    st.distinct(vcore::fnv_str(&format!("{c}|{si}|{mi}")));
+    st.distinct(vcore::fnv_str(&format!("{c}|{si}|{mi}|{repetition}")));
     if case % 24 < 2 {
         st.sample(|| {
             json!({"monitor": "tamper_enumeration", "chunk_size": c, "strict": strict,
@@ -1694,12 +1698,12 @@ fn main() {
     run.assume("compatibility mode (the default) accepts a metadata document without any of an/at/av/g as genuine legacy metadata by documented design (downgrade window, closed by with_strict_metadata_auth): tampers whose installed document looks like that are counted, not asserted, in compatibility mode and must be rejected on every read path in strict mode");
     let t = run.tier;
     let chunks: Vec<u64> = t.pick(vec![1, 7], vec![1, 7, 16]);
-    let n_states = (chunks.len() * 6 * METHODS.len()) as u64;
+    let n_states = (chunks.len() * 6 * METHODS.len()) as u64 * t.pick(1, 3);
     let mut exhaustive = true;
     // the nonce workload goes first: its chunk nonces enter the table before the many metadata
     // seals of the tamper section's copy-then-read probes
     if run.wants("nonce") {
-        run.parallel("nonce", t.pick(48, 400), 0.12, |c, rng, st| nonce_case(c, rng, st, t.pick(6000, 20_000)));
+        run.parallel("nonce", t.pick(48, 220), 0.12, |c, rng, st| nonce_case(c, rng, st, t.pick(6000, 20_000)));
     }
     if run.wants("leak") {
         run.parallel("leak", t.pick(1500, 60_000), 0.25, leak_case);
